@@ -42,7 +42,8 @@ def runIcal (args : List String) : String :=
           | c :: cs =>
             let c := if c = 0 ∨ c > b.length then b.length else c
             b.take c :: cut fuel (b.drop c) cs
-      let chunks := cut (bytes.length + 1) bytes sizes
+      -- a trailing `e`: an empty push behind the data, the daemon's way of saying end of input (`recv()` = 0)
+      let chunks := cut (bytes.length + 1) bytes sizes ++ (if rest.getLast? == some "e" then [[]] else [])
       let (ins, log) := feed chunks
       let is := if ins.isEmpty then "none" else joinWith " " (ins.map fun i => s!"{i.verb}:{uidOf i.lines}")
       s!"{is} # " ++ String.join (log.map fun l => hexBytes l ++ ",")
